@@ -31,6 +31,14 @@ Oracle clauses (violation key = C01:<clause>:...):
                 (mask added / removed) -> encode is not the encoding of the edited value (stale cache)
   wire          a legal encoding produced by the reference encoder (e.g. NXM entry with an explicit
                 all-ones mask) does not decode -> re-encode to itself / len() disagrees
+  composite     ofp_flow_mod(data=<unbuffered complete packet_in>).pack() is documented to return the
+                flow_mod followed by a barrier request and a packet_out: what follows the flow_mod is
+                not exactly these two well-framed messages / the packet_out is not the unbuffered
+                re-send of the packet_in / they do not decode and re-encode
+Secondary forms (data=<packet_in>, data=<packet object>, data/body=<object with pack()>, raw-bytes
+addresses, action= synonyms) are kinds of their own ("<class>/<form>") checked against the same layout
+tables; the dispatch clauses are also run with the decoder table of_01 has after the Nicira component
+was initialised.  A second pack() of every object must repeat the first (reused:...:pack-twice).
 A case stops at the first length/layout failure (decoding a wrong encoding proves nothing); a
 decode clause that failed through one entry point is not reported again for the next one.
 Exceptions without any pox frame are harness errors, never violations.
@@ -269,6 +277,7 @@ class Verdict (object):
     self.raw = None
     self.note = None
   def fail (self, suffix, text):
+    if any(x == suffix for x, _ in self.fails): return      # the same clause at the same site: one defect
     self.fails.append((suffix, text))
 
 
@@ -315,44 +324,97 @@ PADS = (1, 8, 16, 24, 64)
 def _front (mtype, n):
   return S.join(S.message('ofp_echo', dict(header=dict(xid=0x0f0e0d0c, type=mtype)), S.raw('body', payload(n - 8))))
 FRONTS = (_front(S.OFPT['HELLO'], 8), _front(S.OFPT['ECHO_REQUEST'], 21), _front(S.OFPT['ECHO_REQUEST'], 64))
+BACKS = (_front(S.OFPT['HELLO'], 8), _front(S.OFPT['ECHO_REQUEST'], 21))
 
 def variants (P, K, b, stream, state, label=''):
-  """[(buffer, offset of the encoding in it)]: alone; for stream entry points behind another complete
-  message delivered in the same read (hello / 21-byte echo request / 64-byte echo request); for the
-  other entry points embedded behind 3, 1, 8, 16, 24, 64 bytes and behind a full other encoding of
-  the same kind, always with trailing bytes.  Quick tier, kinds without variable-length members:
-  3 bytes plus two of the other prefixes (one front), rotating with a checksum of the encoding."""
+  """[(buffer, offset of the encoding in it)].
+  Stream entry points (real receive loops, which decode in place in their receive buffer): alone;
+  LAST in the read behind another complete message (hello / 21-byte echo request / 64-byte echo
+  request); FIRST in the read in front of another complete message (hello / 21-byte echo request);
+  in the MIDDLE between two.  Quick tier, kinds without variable-length members: one front, one
+  back, one middle, rotating with a checksum of the encoding; otherwise every front, every back and
+  one middle (thorough: every front x back).
+  Other entry points: alone; embedded behind 3, 1, 8, 16, 24, 64 bytes and behind a full other
+  encoding of the same kind WITH trailing bytes; and as the LAST thing in the buffer (nothing
+  after it) behind 8 bytes (+ one more prefix by checksum for kinds with variable-length members;
+  thorough: behind every prefix).  Quick tier, kinds without variable-length members: 3 bytes plus
+  two of the other prefixes with trailing bytes, rotating with a checksum of the encoding."""
   out = [(b, 0)]
   crc = zlib.crc32(b)
   variable = K.name in ('nx_match', 'nx_match/wire') or any(f in VARF for f, t in K.fields)
   every = state >= 2 or variable
   if stream:
     fr = FRONTS if every else (FRONTS[crc % 3],)
-    return out + [(f + b, len(f)) for f in fr]
+    bk = BACKS if every else (BACKS[(crc >> 5) % 2],)
+    out += [(f + b, len(f)) for f in fr]
+    out += [(b + k, 0) for k in bk]
+    if state >= 2: out += [(f + b + k, len(f)) for f in fr for k in bk]
+    else: out.append((FRONTS[(crc >> 7) % 3] + b + BACKS[(crc >> 9) % 2], len(FRONTS[(crc >> 7) % 3])))
+    return out
   ref = ref_of(P, K) if K.cat != 'wire' else None
   full = ref[2] if ref is not None else b
   pres = [bytes(((0x5b + 7 * i) & 0xff) for i in range(n)) for n in PADS] + [full]
+  last = [pres[1]]                                       # behind 8 bytes, nothing after
+  if state >= 2: last = pres
+  elif every: last.append(pres[(0, 2, 3, 4)[(crc >> 11) % 4]])
   if not every: pres = [pres[crc % 6], pres[(crc // 6 + 1 + crc % 6) % 6]]
   out.append((PRE + b + POST, len(PRE)))
-  if label == 'dispatch' and state < 2: return out      # the table entry is the callable already decoded with above
+  if label == 'dispatch' and state < 2:                  # the table entry is the callable already decoded with above
+    return out + [(last[0] + b, len(last[0]))]
   out.extend((p + b + POST, len(p)) for p in pres if len(p) != len(PRE))
+  out.extend((p + b, len(p)) for p in last)
   return out
+
+
+def where_text (raw, off, n, stream):
+  """how the encoding sits in the buffer handed to the decoder (for messages)"""
+  after = len(raw) - off - n
+  if not off and not after: return ""
+  if stream:
+    return " (%s in the same read)" % " and ".join(
+      x for x in ("behind another %d-byte message" % off if off else "", "in front of another %d-byte message" % after if after else "") if x)
+  return " (embedded at offset %d %s)" % (off, "with %d trailing bytes" % after if after else "as the last thing in the buffer")
+
+
+def n_messages (raw):
+  """reference framing (header length fields): number of messages in raw, [start offsets]"""
+  offs, o = [], 0
+  while len(raw) - o >= 8:
+    l = struct.unpack_from('!H', raw, o + 2)[0]
+    if l < 8 or o + l > len(raw): break
+    offs.append(o); o += l
+  return offs
 
 
 class DispatchFailure (Exception):
   """A real receive path did not hand the message to its handler."""
 
 def real_paths (P):
-  """One real of_01.Connection (controller side) and one real switch-side OFConnection per
-  process, each with a recording handler: bytes in -> the object the handler was given."""
+  """Real receive loops, each with a recording handler: bytes in -> the object the handler was
+  given.  (1) a real of_01.Connection (controller side) with of_01's decoder table as it is after
+  import; (2) a real switch-side OFConnection; (3) a real of_01.Connection whose decoder table is
+  the one of_01 has AFTER the Nicira component was initialised (pox.openflow.nicira._init_unpacker(),
+  what nicira.launch() runs: it wraps the OFPT_VENDOR entry).  of_01.unpackers is a process-wide
+  list, so the real initialiser is run once on it, the resulting table is copied for (3) and the
+  wrapped entries are put back for (1)."""
   if getattr(P, 'paths', None) is not None: return P.paths
   import mc.env as env
   buf = io.StringIO()
   with contextlib.redirect_stdout(buf), contextlib.redirect_stderr(buf):
     cs = env.ControllerStack()
+    import pox.openflow.of_01 as of01
+    plain = list(of01.unpackers)
+    try:
+      P.nx._init_unpacker()
+      P.nxtab = list(of01.unpackers)
+      P.nx.__dict__['print'] = lambda *a, **k: None      # its "NO UNPACKER FOR <subtype>" note (print nothing per case)
+    finally:
+      of01.unpackers[:] = plain
+    P.plaintab = plain
     con = cs.cons[cs.connect()]
-    got = []
-    con.handlers = [lambda c, m: got.append(m)] * 256
+    con.unpackers = plain
+    con_nx = cs.cons[cs.connect()]
+    con_nx.unpackers = P.nxtab
     import pox.datapaths.switch as sw
     from pox.lib.ioworker import RecocoIOWorker
     worker = RecocoIOWorker(env.FakeSock())
@@ -361,40 +423,50 @@ def real_paths (P):
     sc = sw.OFConnection(worker)
     sgot = []
     sc.set_message_handler(lambda c, m: sgot.append(m))
-  def controller (raw, off):
-    del got[:]
-    con.buf = b''; con.sock.rx[:] = [bytes(raw)]; con.sock.tx = b''
-    try:
-      guard = 0
-      while con.sock.rx:
-        guard += 1
-        if con.read() is False or guard > 100:
-          raise DispatchFailure("Connection.read() gave the connection up (returned False)")
-      if len(got) != (2 if off else 1):
-        raise DispatchFailure("the message handler was invoked %d times for %d message(s) in the buffer; %d bytes left in the receive buffer"
-                              % (len(got), 2 if off else 1, len(con.buf)))
-      if con.buf:
-        raise DispatchFailure("%d bytes left in the receive buffer" % len(con.buf))
-      return len(raw), got[-1]
-    finally:
-      con.buf = b''; del con.sock.rx[:]
+  def mk_controller (con):
+    got = []
+    con.handlers = [lambda c, m: got.append(m)] * 256
+    def controller (raw, off):
+      del got[:]
+      offs = n_messages(raw)
+      con.buf = b''; con.sock.rx[:] = [bytes(raw)]; con.sock.tx = b''
+      try:
+        guard = 0
+        while con.sock.rx:
+          guard += 1
+          if con.read() is False or guard > 100:
+            raise DispatchFailure("Connection.read() gave the connection up (returned False)")
+        if len(got) != len(offs):
+          raise DispatchFailure("the message handler was invoked %d times for %d message(s) in the buffer; %d bytes left in the receive buffer"
+                                % (len(got), len(offs), len(con.buf)))
+        if con.buf:
+          raise DispatchFailure("%d bytes left in the receive buffer" % len(con.buf))
+        if off not in offs: raise DispatchFailure("the header length fields do not frame the buffer")
+        i = offs.index(off)
+        return (offs[i + 1] if i + 1 < len(offs) else len(raw)), got[i]
+      finally:
+        con.buf = b''; del con.sock.rx[:]
+    return controller
   def switch (raw, off):
     del sgot[:]
+    offs = n_messages(raw)
     worker.receive_buf = b''; worker.send_buf = b''
     try:
       worker._push_receive_data(bytes(raw))
-      if len(sgot) != (2 if off else 1):
+      if len(sgot) != len(offs):
         reply = worker.send_buf
         what = ""
         if len(reply) >= 12 and reply[1] == 1:
           what = "; the switch answered with OFPT_ERROR type %d code %d" % struct.unpack('!HH', reply[8:12])
-        raise DispatchFailure("the message handler was invoked %d times for %d message(s) in the buffer%s" % (len(sgot), 2 if off else 1, what))
+        raise DispatchFailure("the message handler was invoked %d times for %d message(s) in the buffer%s" % (len(sgot), len(offs), what))
       if worker.receive_buf:
         raise DispatchFailure("%d bytes left in the receive buffer" % len(worker.receive_buf))
-      return len(raw), sgot[-1]
+      if off not in offs: raise DispatchFailure("the header length fields do not frame the buffer")
+      i = offs.index(off)
+      return (offs[i + 1] if i + 1 < len(offs) else len(raw)), sgot[i]
     finally:
       worker.receive_buf = b''; worker.send_buf = b''
-  P.paths = (controller, switch)
+  P.paths = (mk_controller(con), switch, mk_controller(con_nx))
   return P.paths
 
 
@@ -430,9 +502,22 @@ def decoders (P, K, n):
       if e is None:
         raise DispatchFailure("make_type_to_unpacker_table() has no decoder for type %d (%d slots)" % (t, len(tab)))
       return e(raw, off)
-    controller, switch = real_paths(P)
+    controller, switch, controller_nx = real_paths(P)
     real = [('of_01.Connection.read', controller, cat == 'msg', 'stream'),
             ('switch.OFConnection.read', switch, cat == 'msg', 'stream')]
+    # prior state: the Nicira component was initialised (it re-wires of_01's decoder table).  Only for
+    # types whose table entry it replaced - for the others the entry is the very same callable as above.
+    t = getattr(cls, 'header_type', None)
+    if t is None or not (0 <= t < len(P.nxtab) and t < len(P.plaintab)) or P.nxtab[t] is not P.plaintab[t]:
+      nxstrict = (cat == 'msg') or bool(K.opts.get('nx_dispatch'))
+      def table_nx (raw, off):
+        t, tab = raw[off + 1], P.nxtab
+        e = tab[t] if t < len(tab) else None
+        if e is None:
+          raise DispatchFailure("of_01.unpackers has no decoder for type %d after nicira._init_unpacker() (%d slots)" % (t, len(tab)))
+        return e(raw, off)
+      real += [('of_01.unpackers(nicira initialised)', table_nx, nxstrict),
+               ('of_01.Connection.read(nicira initialised)', controller_nx, nxstrict, 'stream')]
   if cat == 'msg':
     return [('unpack_new', cls.unpack_new, True), ('dispatch', table, True)] + real
   if cat == 'msg1':
@@ -460,14 +545,8 @@ def decoders (P, K, n):
       o, xs = of._unpack_actions(raw, n, off); return o, _one(xs)
     return [('unpack_new', cls.unpack_new, True), ('_unpack_actions(generic)', gl, False)]
   if cat == 'nxmsg':
-    out = [('unpack_new', cls.unpack_new, True),
-           ('ofp_vendor_generic', of.ofp_vendor_generic.unpack_new, False), ('dispatch', table, False)] + real
-    if K.opts.get('nx_dispatch'):
-      def nd (raw, off):
-        nx._old_unpacker = of.ofp_vendor_generic.unpack_new
-        return nx._unpack_nx_vendor(raw, off)
-      out.append(('_unpack_nx_vendor', nd, True))
-    return out
+    return [('unpack_new', cls.unpack_new, True),
+            ('ofp_vendor_generic', of.ofp_vendor_generic.unpack_new, False), ('dispatch', table, False)] + real
   if cat == 'nxm':
     return [('nxm_entry.unpack_new', nx.nxm_entry.unpack_new, True)]
   if cat == 'nxmatch':
@@ -500,7 +579,7 @@ def run_wire (P, K, v):
     stream = len(ent) > 3
     if stream and raw[0] != S.OFP_VERSION: continue
     for data, off in variants(P, K, raw, stream, 2, label):
-      emb = (" (behind another %d-byte message in the same read)" if stream else " (embedded at offset %d with trailing bytes)") % off if off else ""
+      emb = where_text(data, off, n, stream)
       try:
         V.calls += 1; off2, o = fn(data, off)
       except DispatchFailure as e:
@@ -532,6 +611,7 @@ def run_case (P, K, v, state=True):
     site, inpox = exc_site(P, e)
     if not inpox: raise e
     if site.endswith('@'): site += own      # raised in a shared helper: name the kind
+    if K.opts.get('tag'): site += ':' + K.opts['tag']      # an input class with a path of its own
     V.fail("raises:" + site, "%s of %s raised %s: %s" % (phase, K.name, type(e).__name__, str(e)[:120]))
   # -- construct ----------------------------------------------------------------------
   try:
@@ -572,6 +652,14 @@ def run_case (P, K, v, state=True):
   if not isinstance(b, bytes):
     V.fail("layout:%s:<type>" % own, "pack() returned %s" % type(b).__name__); return V
   V.raw = b
+  if K.opts.get('first_only') and len(b) >= 8 and 8 <= struct.unpack('!H', b[2:4])[0] <= len(b):
+    V.raw = b[:struct.unpack('!H', b[2:4])[0]]      # recorded outcome: the message itself (what may follow it carries generated xids)
+  whole, tail = b, None
+  if flags.get('tail') is not None and len(b) >= 8:
+    # pack() is documented to return the message FOLLOWED BY further messages for this input: every
+    # clause below applies to the message itself, the rest is checked against what is documented
+    hl = struct.unpack('!H', b[2:4])[0]
+    if 8 <= hl <= len(b): b, tail = b[:hl], b[hl:]
   n = len(b)
   if n0 is not None and n0 != n:
     V.fail("length:" + own, "%s: len(obj) = %d but pack() produced %d bytes (the length field is written from len())" % (K.name, n0, n))
@@ -591,6 +679,21 @@ def run_case (P, K, v, state=True):
     if n1 != n: V.fail("length:" + own, "len(obj) = %d after pack() produced %d bytes" % (n1, n))
   except Exception as e:
     if n0 is not None: raised("len()", e)
+  if tail is not None:
+    t = flags['tail'](tail)
+    if t is not None:
+      V.fail("composite:%s:%s" % (own, t[0]), "%s: %s" % (K.name, t[1])); return V
+    for o in n_messages(tail):
+      try:
+        V.calls += 2
+        e = P.unpackers[tail[o + 1]]
+        o2, x = e(tail, o)
+        l = struct.unpack_from('!H', tail, o + 2)[0]
+        if o2 != o + l or x.pack() != tail[o:o + l]:
+          V.fail("composite:%s:decode" % own, "%s: the %d-byte message of type %d that pack() put behind the message decodes consuming %d bytes / re-encodes differently"
+                 % (K.name, l, tail[o + 1], o2 - o)); return V
+      except Exception as e:
+        raised("decoding the messages pack() put behind the message", e); return V
   # -- decode -------------------------------------------------------------------------
   want = K.cls(P)
   ov = None
@@ -605,7 +708,7 @@ def run_case (P, K, v, state=True):
     if stream and b[0] != S.OFP_VERSION: continue      # both receive loops refuse other versions by design
     strict_eq = strict and flags.get('eq', True) and K.opts.get('eq', True)
     for raw, off in variants(P, K, b, stream, int(state), label):
-      emb = (" (behind another %d-byte message in the same read)" if stream else " (embedded at offset %d with trailing bytes)") % off if off else ""
+      emb = where_text(raw, off, n, stream)
       try:
         V.calls += 1; off2, o2 = fn(raw, off)
       except DispatchFailure as e:
@@ -641,6 +744,17 @@ def run_case (P, K, v, state=True):
         i = next((j for j in range(min(len(b), len(b2))) if b[j] != b2[j]), min(len(b), len(b2)))
         dfail("reencode", "reencode:%s:%s" % (own, label), "%s: re-encoding the object decoded via %s%s differs from the original bytes at offset %d"
                % (K.name, label, emb, i)); break
+  if state and not V.fails:
+    # every encoding of the object is its encoding, not only the first
+    try:
+      V.calls += 2; b3 = obj.pack(); l3 = len(obj)
+    except Exception as e:
+      raised("second pack()/len() of the same object", e); return V
+    if b3[:n] != b or len(b3) != len(whole) or l3 != n:
+      d = layout_diff(exp, b3[:n], flags.get('dont_care', 0)) if exp is not None and len(b3) >= n else None
+      V.fail("reused:%s:pack-twice" % (layout_owner(K, d[0])[0] if d else own),
+             "%s: a second pack() of the same object returned %d bytes (len() %d), the first %d bytes%s"
+             % (K.name, len(b3), l3, len(whole), (", field %s differs" % d[0]) if d else "")); return V
   if state and not V.fails and not K.opts.get('noreuse'):
     state_phases(P, K, v, obj, b, exp, flags, V, raised, ov, int(state))
   return V
@@ -1726,6 +1840,197 @@ _IM = inconsistent_matches()
 Kind('ofp_flow_mod/inconsistent-match', 'msg', HDR + [('match', ('enum', _IM[0], _IM[1:]))] + FMOD + [('actions', ACTS)],
      _b_flow_mod_inconsistent, ofcls('ofp_flow_mod'), owner='ofp_flow_mod/inconsistent-match')
 
+# ---------------------------------------------------------------------------------------
+# secondary forms: the other ways the library offers to build the same messages
+#   data=<ofp_packet_in>   ofp_flow_mod ("install this flow and apply it to the packet I got", as
+#                          l2_learning does) and ofp_packet_out ("re-send this packet"): the buffer id,
+#                          in_port and - when the packet was not buffered - the data are taken from
+#                          the packet_in, over the boundary values of the packet_in's fields
+#   data=<packet object>   ofp_packet_out / ofp_packet_in given a pox.lib.packet object
+#   data/body=<object with pack()>   vendor message / vendor action / vendor + generic stats bodies
+#   address given as 6 raw bytes instead of EthAddr (ofp_phy_port, ofp_port_mod, ofp_action_dl_addr)
+#   action=<list>, action=<one action>, actions=<one action> constructor synonyms
+# ---------------------------------------------------------------------------------------
+OFPP_TABLE = 0xfff9
+FMOD_NB = [(f, t) for f, t in FMOD if f != 'buffer_id']
+PI_F = [('pi.buffer_id', BUF), ('pi.in_port', 'u16'), ('pi.data', LEN(20, 0, 1, 1500)),
+        ('pi.truncated', ('enum', False, [True])), ('pi.origin', ('enum', 'constructed', ['decoded', 'nxt_packet_in'])),
+        ('route', ('enum', 'kw', ['attr']))]
+
+def pi_buffered (v): return v['pi.buffer_id'] not in (None, S.OFP_NO_BUFFER)
+
+def mk_pi (P, v):
+  """the packet_in a controller holds: built by a caller, or decoded from the wire"""
+  data = payload(v['pi.data'])
+  total = len(data) + (36 if v['pi.truncated'] else 0)
+  if v['pi.origin'] == 'decoded':
+    raw = S.join(S.message('ofp_packet_in', dict(header=dict(version=S.OFP_VERSION, xid=0x01020304, type=S.OFPT['PACKET_IN']),
+                                                 buffer_id=bufspec(v['pi.buffer_id']), total_len=total, in_port=v['pi.in_port'], reason=1),
+                           S.raw('data', data)))
+    return P.of.ofp_packet_in.unpack_new(raw)[1], data
+  kw = dict(xid=0x01020304, buffer_id=v['pi.buffer_id'], in_port=v['pi.in_port'], reason=1, data=data)
+  if v['pi.truncated']: kw['total_len'] = total
+  if v['pi.origin'] == 'nxt_packet_in':
+    # the Nicira packet-in (a subclass of ofp_packet_in; what handlers get with convert_packet_in): in_port is in its match
+    del kw['in_port']
+    pi = P.nx.nxt_packet_in(**kw)
+    pi.match.append(P.nx.NXM_OF_IN_PORT(v['pi.in_port']))
+    return pi, data
+  return P.of.ofp_packet_in(**kw), data
+
+def flow_mod_tail (tail, in_port, data):
+  """What ofp_flow_mod.pack() documents for data=<unbuffered, complete packet_in>: the flow_mod is
+  followed by a barrier request and a packet_out that carries the packet.  Demanded: exactly these two
+  messages, each with its header length = its byte count, the packet_out unbuffered, from the
+  packet_in's in_port, with the packet_in's data (its actions and the xids are the library's choice).
+  -> None | (field, text)"""
+  offs = n_messages(tail)
+  lens = [struct.unpack_from('!H', tail, o + 2)[0] for o in offs]
+  if len(offs) != 2 or offs[-1] + lens[-1] != len(tail):
+    return 'framing', "%d bytes follow the flow_mod; their header length fields frame %d message(s) %s, documented: a barrier request and a packet_out" % (
+      len(tail), len(offs), [tail[o + 1] for o in offs])
+  bar, po = tail[:lens[0]], tail[offs[1]:]
+  if bar[:4] != struct.pack('!BBH', S.OFP_VERSION, S.OFPT['BARRIER_REQUEST'], 8):
+    return 'barrier', "the message behind the flow_mod starts %s, not a barrier request" % bar[:4].hex()
+  if po[:2] != struct.pack('!BB', S.OFP_VERSION, S.OFPT['PACKET_OUT']) or len(po) < 16:
+    return 'packet_out', "the last message starts %s, not a packet_out" % po[:4].hex()
+  bid, inp, alen = struct.unpack_from('!LHH', po, 8)
+  if bid != S.OFP_NO_BUFFER: return 'packet_out.buffer_id', "the packet_out for an unbuffered packet names buffer 0x%x" % bid
+  if inp != in_port: return 'packet_out.in_port', "the packet_out has in_port %d, the packet_in %d" % (inp, in_port)
+  if 16 + alen > len(po) or po[16 + alen:] != data:
+    return 'packet_out.data', "the packet_out carries %d data bytes behind %d bytes of actions, the packet_in %d" % (len(po) - 16 - alen, alen, len(data))
+  return None
+
+def _b_flow_mod_data (P, v):
+  m, mv, dc = match_pair(P, v['match'], flow_mod=True)
+  acts, aexp, strict = sublist(P, v['actions'], 'actions')
+  pi, data = mk_pi(P, v)
+  kw = hkw(v); kw.update((f, v[f]) for f, t in FMOD_NB); kw.update(match=m, actions=acts)
+  if v['route'] == 'kw': o = P.of.ofp_flow_mod(data=pi, **kw)
+  else:
+    o = P.of.ofp_flow_mod(**kw); o.data = pi
+  buffered = pi_buffered(v)
+  def exp ():
+    sv = dict((f, v[f]) for f, t in FMOD_NB)
+    sv.update(header=hsp(v, S.OFPT['FLOW_MOD']), match=mv, buffer_id=v['pi.buffer_id'] if buffered else S.OFP_NO_BUFFER)
+    return S.message('ofp_flow_mod', sv, aexp())
+  # the decoded flow_mod cannot carry the packet_in (`data` is not on the wire and takes part in ==)
+  flags = dict(eq=False, view=False, dont_care=dc)
+  if not buffered and not v['pi.truncated']:
+    flags['tail'] = lambda tail: flow_mod_tail(tail, v['pi.in_port'], data)
+  return o, exp, flags
+Kind('ofp_flow_mod/data=packet_in', 'msg', HDR + [('match', MATCH)] + FMOD_NB + PI_F + [('actions', ACTS)], _b_flow_mod_data,
+     ofcls('ofp_flow_mod'), owner='ofp_flow_mod/data=packet_in', noreuse=True, first_only=True)
+
+def _b_packet_out_pi (P, v):
+  buffered = pi_buffered(v)
+  if not buffered and v['pi.truncated']:
+    raise OutOfScope("re-sending a truncated unbuffered packet_in is refused by the library (assert data.is_complete)")
+  acts, aexp, strict = sublist(P, v['actions'], 'actions')
+  pi, data = mk_pi(P, v)
+  if v['route'] == 'kw': o = P.of.ofp_packet_out(data=pi, actions=acts, **hkw(v))
+  else:
+    o = P.of.ofp_packet_out(actions=acts, **hkw(v)); o.data = pi
+  def exp ():
+    ap = aexp()
+    sv = dict(header=hsp(v, S.OFPT['PACKET_OUT']), buffer_id=v['pi.buffer_id'] if buffered else S.OFP_NO_BUFFER,
+              in_port=v['pi.in_port'], actions_len=S.plen(ap))
+    return S.message('ofp_packet_out', sv, ap + S.raw('data', b'' if buffered else data))
+  return o, exp, dict(eq=strict)
+Kind('ofp_packet_out/data=packet_in', 'msg', HDR + PI_F + [('actions', ACTS)], _b_packet_out_pi, ofcls('ofp_packet_out'),
+     owner='ofp_packet_out/data=packet_in', noreuse=True)
+
+ETH_DST, ETH_SRC, ETH_TYPE = fpbytes(40, 6), fpbytes(41, 6), 0x88b5
+def mk_eth (P, n):
+  import pox.lib.packet as pkt
+  e = pkt.ethernet(dst=P.EthAddr(ETH_DST), src=P.EthAddr(ETH_SRC), type=ETH_TYPE)
+  e.payload = payload(n)
+  return e, ETH_DST + ETH_SRC + struct.pack('!H', ETH_TYPE) + payload(n)
+
+def _b_packet_out_eth (P, v):
+  acts, aexp, strict = sublist(P, v['actions'], 'actions')
+  e, raw = mk_eth(P, v['frame'])
+  if v['route'] == 'kw': o = P.of.ofp_packet_out(in_port=v['in_port'], actions=acts, data=e, **hkw(v))
+  else:
+    o = P.of.ofp_packet_out(in_port=v['in_port'], actions=acts, **hkw(v)); o.data = e
+  def exp ():
+    ap = aexp()
+    sv = dict(header=hsp(v, S.OFPT['PACKET_OUT']), buffer_id=S.OFP_NO_BUFFER, in_port=v['in_port'], actions_len=S.plen(ap))
+    return S.message('ofp_packet_out', sv, ap + S.raw('data', raw))
+  return o, exp, dict(eq=strict)
+Kind('ofp_packet_out/data=packet', 'msg', HDR + [('in_port', 'u16'), ('actions', ACTS), ('frame', LEN(46, 0, 1, 1486)), ('route', ('enum', 'kw', ['attr']))],
+     _b_packet_out_eth, ofcls('ofp_packet_out'), noreuse=True)
+
+def _b_packet_in_eth (P, v):
+  e, raw = mk_eth(P, v['frame'])
+  kw = hkw(v); kw.update(buffer_id=v['buffer_id'], in_port=v['in_port'], reason=v['reason'])
+  if v['route'] == 'kw': o = P.of.ofp_packet_in(data=e, **kw)
+  else:
+    o = P.of.ofp_packet_in(**kw); o.data = e
+  def exp ():
+    sv = dict(header=hsp(v, S.OFPT['PACKET_IN']), buffer_id=bufspec(v['buffer_id']), total_len=len(raw), in_port=v['in_port'], reason=v['reason'])
+    return S.message('ofp_packet_in', sv, S.raw('data', raw))
+  return o, exp
+Kind('ofp_packet_in/data=packet', 'msg', HDR + [('buffer_id', BUF), ('in_port', 'u16'), ('reason', 'u8'), ('frame', LEN(46, 0, 1, 1486)),
+                                                ('route', ('enum', 'kw', ['attr']))],
+     _b_packet_in_eth, ofcls('ofp_packet_in'), noreuse=True)
+
+class Blob (object):
+  """any caller-defined body object: the codecs accept whatever has pack() (and a length)"""
+  def __init__ (self, b): self.b = b
+  def pack (self): return self.b
+  def __len__ (self): return len(self.b)
+
+def _attrform (parent, attr, suffix, conv, **flags):
+  """the parent kind with one attribute re-assigned in its secondary representation"""
+  PK = KINDS[parent]
+  def build (P, v):
+    r = PK.build(P, v)
+    setattr(r[0], attr, conv(P, getattr(r[0], attr)))
+    f = dict(r[2] if len(r) > 2 else {}); f.update(flags)
+    return r[0], r[1], f
+  name = '%s/%s' % (parent, suffix)
+  return Kind(name, PK.cat, PK.fields, build, PK.cls, noreuse=True, payload=PK.opts.get('payload'),
+              base=PK.base, fixed=PK.fixed)
+
+def _late_forms ():
+  for parent, attr in (('ofp_vendor_generic', 'data'), ('ofp_action_vendor_generic', 'body'),
+                       ('ofp_vendor_stats_generic', 'data'), ('ofp_generic_stats_body', 'data')):
+    # the decoded object holds bytes, not the caller's object: == between the two is not claimed
+    _attrform(parent, attr, '%s=object' % attr, lambda P, x: Blob(x), eq=False, view=False)
+  for parent, attr in (('ofp_phy_port', 'hw_addr'), ('ofp_port_mod', 'hw_addr'), ('ofp_action_dl_addr', 'dl_addr')):
+    _attrform(parent, attr, '%s=bytes' % attr, lambda P, x: x.toRaw())
+  for parent, clsname in (('ofp_flow_mod', 'ofp_flow_mod'), ('ofp_packet_out/data', 'ofp_packet_out'), ('ofp_packet_out/buffered', 'ofp_packet_out')):
+    def build (P, v, parent=parent, clsname=clsname):
+      PK = KINDS[parent]
+      lst = [v['act'], _AA[0]] if v['form'] == 'action=list' else [v['act']]
+      r = PK.build(P, PK.basev(actions=lst, version=v['version'], xid=v['xid']))
+      ref = r[0]
+      kw = dict((k, x) for k, x in vars(ref).items() if not k.startswith('_') and k != 'actions')
+      kw.update(xid=ref.xid, buffer_id=ref.buffer_id)
+      if 'data' not in kw: kw['data'] = ref.data
+      if kw['data'] is None: del kw['data']
+      objs = sublist(P, lst, 'actions')[0]
+      if v['form'] == 'action=list': kw['action'] = objs
+      elif v['form'] == 'action=single': kw['action'] = objs[0]
+      else: kw['actions'] = objs[0]
+      return (getattr(P.of, clsname)(**kw),) + tuple(r[1:])
+    name = parent.split('/')[0] + '/action-synonym' + ('' if '/' not in parent else '-' + parent.split('/')[1])
+    Kind(name, 'msg', HDR + [('form', ('enum', 'action=single', ['action=list', 'actions=single'])), ('act', ('enum', _AA[0], _AA[1:]))],
+         build, ofcls(clsname), noreuse=True)
+
+def _b_vendor_nicira_id (P, v):
+  data = payload(v['data'])
+  o = P.of.ofp_vendor_generic(vendor=S.NX_VENDOR_ID, data=data, **hkw(v))
+  def exp ():
+    return S.message('ofp_vendor_header', dict(header=hsp(v, S.OFPT['VENDOR']), vendor=S.NX_VENDOR_ID), S.raw('data', data))
+  return o, exp
+# a vendor message that carries Nicira's vendor id but is none of the Nicira messages (no / unknown subtype):
+# an OpenFlow 1.0 vendor message like any other; with the Nicira component initialised it takes another
+# path through the decoder table (failures there carry the input class in their key)
+Kind('ofp_vendor_generic/nicira-vendor-id', 'msg', HDR + [('data', LEN(20, 0, 1, 2, 3, 4, 5, 7, 8, 1500))], _b_vendor_nicira_id,
+     ofcls('ofp_vendor_generic'), payload='data', tag='nicira-vendor-id', noreuse=True)
+
 def _b_qgc_reply (P, v):
   qs, qexp, _ = sublist(P, v['queues'], 'queues')
   o = P.of.ofp_queue_get_config_reply(port=v['port'], queues=qs, **hkw(v))
@@ -1860,6 +2165,8 @@ def _b_stats_raw (clsname, sname, mtype):
 _b_stats_raw('ofp_stats_request', 'ofp_stats_request', S.OFPT['STATS_REQUEST'])
 _b_stats_raw('ofp_stats_reply', 'ofp_stats_reply', S.OFPT['STATS_REPLY'])
 
+_late_forms()
+
 # ---- objects changed after they were first encoded (the codecs cache packed bodies) -----
 def _b_req_reassigned (P, v):
   code = STATS[v['second'][0]][0]
@@ -1970,6 +2277,30 @@ def _b_nx_flow_mod (P, v):
   return o, exp, dict(eq=strict)
 Kind('nx_flow_mod', 'nxmsg', HDR + NXFM + [('match', NXMATCH), ('actions', ACTS)], _b_nx_flow_mod, nxcls('nx_flow_mod'))
 
+def _b_nx_flow_mod_data (P, v):
+  buffered = pi_buffered(v)
+  if not buffered and v['pi.truncated']:
+    raise OutOfScope("a truncated unbuffered packet_in as data of an nx_flow_mod is refused by the library (assert self.data.is_complete)")
+  m, mexp = KINDS['nx_match'].build(P, dict(parts=v['match']))
+  acts, aexp, strict = sublist(P, v['actions'], 'actions')
+  pi, data = mk_pi(P, v)
+  kw = hkw(v); kw.update((f, v[f]) for f, t in NXFM if f != 'buffer_id'); kw.update(match=m, actions=acts)
+  if v['route'] == 'kw': o = P.nx.nx_flow_mod(data=pi, **kw)
+  else:
+    o = P.nx.nx_flow_mod(**kw); o.data = pi
+  def exp ():
+    mp = S.prefixed('match:nx_match.', mexp())
+    ml = S.plen(mp)
+    sv = dict((f, v[f]) for f, t in FMOD8 if f != 'buffer_id')
+    sv.update(header=dict(version=v['version'], xid=v['xid']), buffer_id=v['pi.buffer_id'] if buffered else S.OFP_NO_BUFFER,
+              command=v['table_id'] << 8 | v['command'], match_len=ml)
+    return S.nx_message('nx_flow_mod', S.NXT['FLOW_MOD'], sv, mp + S.raw('match_pad', b'\0' * S.pad8(ml)) + aexp())
+  flags = dict(eq=False, view=False)
+  if not buffered: flags['tail'] = lambda tail: flow_mod_tail(tail, v['pi.in_port'], data)
+  return o, exp, flags
+Kind('nx_flow_mod/data=packet_in', 'nxmsg', HDR + [(f, t) for f, t in NXFM if f != 'buffer_id'] + PI_F + [('match', NXMATCH), ('actions', ACTS)],
+     _b_nx_flow_mod_data, nxcls('nx_flow_mod'), owner='nx_flow_mod/data=packet_in', noreuse=True, first_only=True)
+
 def _w_nx_flow_mod (P, v):
   mp = []
   for i, e in enumerate(v['match']): mp.extend(wire_nxm(e, 'match:nx_match.parts[%d]:nxm_entry.' % i))
@@ -2072,6 +2403,24 @@ def port_shapes (thorough):
         ports = list(base); ports[pos] = ['ofp_phy_port', v]
         yield ports
 
+def pi_forms (cont, thorough):
+  """the full product of the carried packet_in's field domains x how it is attached (quick: the other
+  fields at their base value; thorough: also with every single deviation of the carrier's own fields)"""
+  import itertools
+  K = KINDS[cont]
+  idx = dict((f, i) for i, (f, t) in enumerate(K.fields))
+  doms = []
+  for f, t in PI_F:
+    b0, alts = dom(t, idx[f])
+    doms.append([b0] + [a for a in alts if a != b0])
+  names = [f for f, t in PI_F]
+  outer = [K.basev()]
+  if thorough:
+    outer = [v for v in K.lattice(1) if all(v[f] == outer[0][f] for f in names)]
+  for base in outer:
+    for combo in itertools.product(*doms):
+      v = dict(base); v.update(zip(names, combo)); yield v
+
 def sweeps (thorough):
   """[(sweep name, kind name, generator of vectors)] - every vector of every sweep is run."""
   out = []
@@ -2107,6 +2456,8 @@ def sweeps (thorough):
   out.append(('wire-nxm-lists', 'nx_match/wire', lambda: (dict(parts=p) for p in wire_match_lists(pox(), thorough))))
   for cont in ('nx_flow_mod/wire', 'nxt_packet_in/wire'):
     out.append(('wire-nxm-lists', cont, lambda cont=cont: (K[cont].basev(match=p) for p in wire_match_lists(pox(), thorough))))
+  for cont in ('ofp_flow_mod/data=packet_in', 'ofp_packet_out/data=packet_in', 'nx_flow_mod/data=packet_in'):
+    out.append(('packet-in-forms', cont, lambda cont=cont: pi_forms(cont, thorough)))
   out.append(('64KiB-limits', None, lambda: limit_cases()))
   out.append(('changed-after-first-encoding', None, lambda: mutation_cases()))
   return out
@@ -2229,11 +2580,34 @@ def run (cfg):
               "class the reference encoder's wire forms {no mask, explicit all-ones mask, zero mask, partial masks} x "
               "values, alone, in nx_match lists, and inside NXT_FLOW_MOD / NXT_PACKET_IN: decode consumes exactly the "
               "bytes, len() agrees, re-encode gives the same bytes. distinct = (kind, verdict, length, 8-bit checksum) "
-              "digests"
+              "digests. (11) SECONDARY FORMS, each a kind of its own with the same clauses and layout tables: "
+              "ofp_flow_mod, nx_flow_mod and ofp_packet_out given data=<ofp_packet_in> - the full product of the packet_in's buffer_id "
+              "{fingerprint, 0, 1, 0x80000000, 0xffffffff, None} x in_port {fingerprint, 0, 1, 0x8000, 0xffff} x data length {20, 0, 1, 1500} x "
+              "{complete, truncated} x {constructed, decoded from reference bytes, a Nicira nxt_packet_in} x attached by {constructor keyword, "
+              "attribute assignment}, plus the field lattice of the carrier: buffered -> ONE message naming that buffer "
+              "(header length = byte count = len()); unbuffered and complete -> flow_mod + barrier request + unbuffered "
+              "packet_out with the packet_in's in_port and data (documented), each well framed and decodable; "
+              "ofp_packet_out / ofp_packet_in given a pox.lib.packet ethernet object (frame payload 0, 1, 46, 1486); "
+              "ofp_vendor_generic.data / ofp_action_vendor_generic.body / ofp_vendor_stats_generic.data / "
+              "ofp_generic_stats_body.data given an object with pack() (vendor message: every length 0..1500); hw_addr / "
+              "dl_addr given as 6 raw bytes (ofp_phy_port, ofp_port_mod, ofp_action_dl_addr); action=<list>, "
+              "action=<one action>, actions=<one action> x the 16 action atoms for flow_mod and both packet_out kinds; "
+              "ofp_vendor_generic carrying Nicira's vendor id without being a Nicira message (payload 0..1500). "
+              "(12) PRIOR STATE of the decoder table: every message whose of_01.unpackers entry is replaced when the "
+              "Nicira component is initialised (the real nicira._init_unpacker() is run; today OFPT_VENDOR: "
+              "ofp_vendor_generic incl. payload 0..1500, all nx_* messages) is also decoded through that table entry "
+              "and through a real of_01.Connection.read() using that table. (13) buffer positions: every decoder is "
+              "also handed the encoding as the LAST thing in the buffer at a non-zero offset (behind 8 bytes; kinds "
+              "with variable-length members one more prefix by checksum; thorough every prefix), the receive loops "
+              "also with the message FIRST in front of another message and in the MIDDLE of three. (14) every object "
+              "is encoded a second time: same bytes, same len()"
               % (len(KINDS), len([k for k in KINDS if k.startswith('nx')]),
                  "2" if cfg.quick else "3", 3 if thorough else 2, 3 if thorough else 2))
   rep.bound = dict(deviations=2 if cfg.quick else 3, payload="0..1500", action_seq_len=3 if thorough else 2,
-                   list_shapes="0..3", match_deviations=3 if thorough else 2)
+                   list_shapes="0..3", match_deviations=3 if thorough else 2,
+                   packet_in_forms="full product (1440 per carrier)%s" % ("" if cfg.quick else " x 1 deviation of the carrier's own fields"),
+                   decoder_table_states="as imported; after nicira._init_unpacker()",
+                   buffer_positions="alone / behind / in front / between; embedded with trailing bytes / last in buffer")
   rep.extra['sweep_sizes'] = sizes
   rep.assumptions = [
     "ofp_match objects are prerequisite-consistent (fields whose prerequisite is absent are documented as ignored); a wildcarded field is sent as zero; nw prefix counts >= 32 are one value; in a flow-mod the wildcard bits of non-applicable fields carry no meaning",
@@ -2243,6 +2617,10 @@ def run (cfg):
     "Nicira layouts are compared only for structures stated with certainty in mc/refs/ofspec.py (not MPLS actions, bundle)",
     "values outside a field's wire range, names longer than the field, buffer_id together with data, total_len < len(data) are refused by the library's validation and are out of scope",
     "structures (ofp_match, ofp_phy_port, ofp_packet_queue, queue properties, statistics bodies) are decoded with their unpack(); messages and actions with unpack_new and the dispatch tables",
+    "a flow_mod / packet_out built from a packet_in has no buffer_id of its own set (which of the two wins is not specified); re-sending a truncated unbuffered packet_in through ofp_packet_out is refused by the library (assert) and out of scope; a flow_mod given a truncated unbuffered packet_in is sent alone (the library logs that it cannot include the data)",
+    "for ofp_flow_mod(data=<unbuffered complete packet_in>) the documented composite is required to be flow_mod + barrier request + unbuffered packet_out with the packet_in's in_port and data; the packet_out's actions and the xids of the two extra messages are the library's choice; len() is that of the flow_mod",
+    "an object decoded from bytes cannot carry a caller's packet_in / body object: for data=<packet_in> on a flow_mod and data/body=<object with pack()> the decoded object is required to re-encode to the same bytes, not to be == the original",
+    "initialising the Nicira component is represented by running the real nicira._init_unpacker() on of_01.unpackers (what nicira.launch() does to the decoder table) and using the resulting table; the process-wide table is put back afterwards",
   ]
   return rep
 
